@@ -11,9 +11,13 @@ from . import pool, replay, tlc
 CATALOG = {
     "C01": {
         "drivers": [("ring", {"quick": 500, "thorough": 20000}, {})],
-        "models": [{"module": "MC_Ring", "cfg": {"quick": "MC_Ring_quick", "thorough": "MC_Ring_thorough"},
-                    "extract": "ring_programs", "replay": "run_ring_program",
-                    "limit": {"quick": 5000, "thorough": 400000}}],
+        "models": [
+            # three seeds, no operation: associativity and distributivity of the specification's arithmetic
+            {"module": "MC_Ring", "cfg": {"quick": "MC_Ring_laws", "thorough": "MC_Ring_laws"}},
+            # two seeds and one operation: the programs that are replayed
+            {"module": "MC_Ring", "cfg": {"quick": "MC_Ring_quick", "thorough": "MC_Ring_thorough"},
+             "extract": "ring_programs", "replay": "run_ring_program",
+             "limit": {"quick": 5000, "thorough": 400000}}],
     },
     "C02": {
         "drivers": [("call", {"quick": 400, "thorough": 15000}, {})],
